@@ -3,7 +3,7 @@
    code: Lookup / LookupExtension read a map without the read lock, so the lock discipline is
    refuted for them and proved for the import paths. *)
 From Coq Require Import List NArith ZArith Bool Permutation.
-From PV Require Import Model.Symbols Proofs.Symbols Proofs.SymbolsSpec.
+From PV Require Import Model.Symbols Proofs.Symbols Proofs.SymbolsSpec Proofs.SymbolsSeq.
 Import ListNotations.
 
 (* ---- same collisions as one compile (parts imported one after another on the shared table) ---- *)
@@ -18,6 +18,14 @@ Theorem C16_collision_iff_reported :
     (any_err l = false <-> ~ collides (closure_list fs)).
 Proof. exact collision_iff_reported_lemma. Qed.
 Print Assumptions C16_collision_iff_reported.
+
+(* the same with the boolean has_collision, which is what the check compares with the real code *)
+Theorem C16_reported_eq_has_collision :
+  forall fs T l,
+    wf_universe (closure_list fs) ->
+    run_ops [] (map OImport fs) = (T, l) -> any_err l = has_collision fs.
+Proof. exact reported_eq_has_collision_lemma. Qed.
+Print Assumptions C16_reported_eq_has_collision.
 
 (* hence splitting the files into parts, in any order, sharing the table, reports a collision
    exactly when importing them all together does *)
@@ -92,3 +100,13 @@ Theorem C16_model_drf_imports :
     race_at (run_sched (init_state T (map ops_prog opss)) sched) i j = false.
 Proof. exact model_drf_imports_lemma. Qed.
 Print Assumptions C16_model_drf_imports.
+
+(* the two halves of the model are one: the step program of Import, run alone, returns what the
+   sequential Import returns and leaves a table that reads alike at every node (also for the
+   repaired Import, fx = true) *)
+Theorem C16_seq_refines :
+  forall fx f T,
+    (forall q, get_node (fst (run_seq (import_prog_gen fx f) T)) q = get_node (fst (import_gen fx f T)) q) /\
+    snd (run_seq (import_prog_gen fx f) T) = snd (import_gen fx f T).
+Proof. exact seq_refines_lemma. Qed.
+Print Assumptions C16_seq_refines.
